@@ -55,7 +55,7 @@ import nfc.llcp.llc as llc_mod
 import nfc.llcp.pdu as pdu
 
 from vlib import ref_llcp as ref, vsched
-from vlib.engine import HarnessError, Leg, Violation, unexpected
+from vlib.engine import HarnessError, Leg, Violation, unexpected, twin_env
 from vlib.llcpair import (DATA_LINK_CONNECTION, LOGICAL_DATA_LINK, Box,
                           LlcPair, flat, observe, other)
 
@@ -1723,3 +1723,8 @@ LEGS = [
              "peer, resolve() calls; every frame of every exchange and of "
              "the final flush is judged; non-trivial as for announce."),
 ]
+
+# the same search in an interpreter with another string hash seed: what a
+# program gets from iterating a set / dict of names differs between runs
+_byn = dict((lg.name, lg) for lg in LEGS)
+LEGS += [twin_env(_byn['machine'], "hash77", {"PYTHONHASHSEED": "77"})]
